@@ -116,6 +116,7 @@ def climb (A : CAtoms) (root : Node) : List Shell → Node
   | [] => root
   | s :: rest =>
     if nodeDisplay A root != "inline" then root
+    else if nestableTag root.tag then root
     else if s.tag == "body" then root
     else climb A (s.wrap root) rest
 
